@@ -244,6 +244,21 @@ pub fn candidates(sink: &mut Sink, seed: u64, thorough: bool) {
             specs.push(mk(vec![ch; n], Some(e), if j % 3 == 0 { None } else { Some(mode) }, None, None, format!("cand:uniform:{v}")));
         }
     }
+    // Exact steps of the dark-ratio term: it changes at 40% and 60% dark, and a symbol can sit EXACTLY on such a step only when
+    // 5 divides its side (versions 2, 7, 12, ... 37).  A steered search looks for payloads where a candidate has exactly 2/5 or 3/5
+    // of its modules dark AND is within ten points of the best other candidate: the inputs where an off-by-one-step in that term
+    // flips the choice.  Random payloads never land there.  Steering uses the stage hooks (where each payload bit lands) and the
+    // crate's recorded scores; it only SELECTS inputs, the verdict is TLC's on the documented penalty of the recorded candidates.
+    let step_versions: &[usize] = if thorough { &[2, 7, 12, 17, 22, 27, 32, 37] } else { &[7, 12, 17] };
+    let budget = if thorough { 80_000usize } else { 9_000 };
+    for (vi, &v) in step_versions.iter().enumerate() {
+        let per_version = budget / step_versions.len();
+        let want = if thorough { 6 } else { 2 };
+        let _ = vi;
+        let found = step_search(&mut r, v, 0, per_version, want, if thorough { 450 } else { 160 });     // level L: the largest share of modules under the payload's control
+        if found.is_empty() { specs.push(mk(vec![0xFF; capacity(2, 0, v)], Some(0), Some(2), Some(v), None, format!("cand:stepnone:{v}"))); }
+        for p in found { specs.push(mk(p, Some(0), Some(2), Some(v), None, format!("cand:step:{v}"))); }
+    }
     let mid = if thorough { 220 } else { 22 };
     for i in 0..mid {
         let v = 5 + i % 11;
@@ -278,6 +293,113 @@ pub fn candidates(sink: &mut Sink, seed: u64, thorough: bool) {
             Err(k) => sink.emit(&json!({"ev": "Candidates", "id": id, "tag": s.tag, "input": s.input, "opts": s.opts_json(), "kind": k, "size": 0, "chosen": -1, "cand": []})),
         }
     }
+}
+
+/// Module index (row * side + column) of every bit of the data codewords of (version v, level e), found with the stage hooks:
+/// `structure` of a unit vector tells where a data codeword lands in the interleaved stream, `place` of a one-bit stream where
+/// that bit lands in the symbol.
+fn bit_modules(v: usize, e: usize) -> Vec<usize> {
+    let (ver, ecl) = (version(v), LEVELS[e]);
+    let t = verif::tables(ver, ecl);
+    let (total_cw, data_cw) = (t[0], t[2]);
+    let base = { let mut q = verif::blank(ver); verif::place(&mut q, &vec![0u8; total_cw], ver); q };
+    let n = base.size;
+    let mut out = Vec::with_capacity(data_cw * 8);
+    for d in 0..data_cw {
+        let mut data = vec![0u8; data_cw]; data[d] = 1;
+        let st = verif::structure(&data, ecl, ver);
+        let k = st[..data_cw].iter().position(|&x| x != 0).unwrap_or(0);
+        for b in 0..8 {
+            let mut s = vec![0u8; total_cw]; s[k] = 0x80 >> b;
+            let mut q = verif::blank(ver); verif::place(&mut q, &s, ver);
+            out.push((0..n * n).find(|&i| q.data[i].0 != base.data[i].0).unwrap_or(0));
+        }
+    }
+    out
+}
+fn mask_bit(m: usize, i: usize, j: usize) -> bool {
+    match m { 0 => (i + j) % 2 == 0, 1 => i % 2 == 0, 2 => j % 3 == 0, 3 => (i + j) % 3 == 0, 4 => (i / 2 + j / 3) % 2 == 0,
+              5 => (i * j) % 2 + (i * j) % 3 == 0, 6 => ((i * j) % 2 + (i * j) % 3) % 2 == 0, _ => ((i + j) % 2 + (i * j) % 3) % 2 == 0 }
+}
+/// Byte-mode payloads at capacity of (v, e) for which some mask candidate has exactly 2/5 or 3/5 dark modules and scores within
+/// ten points of the best other candidate.
+fn step_search(r: &mut rand::rngs::StdRng, v: usize, e: usize, budget: usize, want: usize, abandon: i64) -> Vec<Vec<u8>> {
+    let debug = std::env::var("FQV_DEBUG").is_ok();
+    let n = 17 + 4 * v;
+    let total = (n * n) as i64;
+    let cap = capacity(2, e, v);
+    let where_ = bit_modules(v, e);
+    let head = 4 + if v < 10 { 8 } else { 16 };
+    let mk = |input: Vec<u8>| BuildSpec { input, ecl: Some(e), mode: Some(2), version: Some(v), mask: None, grp: 0, tag: String::new(), lite: false };
+    // (dark count per candidate, score per candidate)
+    let eval = |p: &Vec<u8>| -> Option<(Vec<i64>, Vec<i64>)> {
+        let s = mk(p.clone());
+        verif::start_recording();
+        let _ = std::panic::catch_unwind(std::panic::AssertUnwindSafe(|| s.builder().build().is_ok()));
+        let cs = verif::take_candidates();
+        if cs.len() < 8 { return None; }
+        Some((cs.iter().map(|k| k.modules[..k.size * k.size].iter().filter(|m| **m & 1 == 1).count() as i64).collect(), cs.iter().map(|k| k.score as i64).collect()))
+    };
+    let hit = |d: &Vec<i64>, sc: &Vec<i64>, target: i64| (0..8).any(|i| d[i] == target && (sc[i] - (0..8).filter(|&j| j != i).map(|j| sc[j]).min().unwrap_or(0)).abs() <= 10);
+    // payload in which a share f of the bits is chosen so that the module comes out dark (or light) under mask m, the rest random
+    let steer = |r: &mut rand::rngs::StdRng, m: usize, f: f64, dark: bool, by_density: bool| -> Vec<u8> {
+        let mut p: Vec<u8> = (0..cap).map(|_| r.gen()).collect();
+        for j in 0..cap { for b in 0..8 {
+            if r.gen::<f64>() < f {
+                // masks 2 and 3 flip a third of the modules only: plain bit density moves their dark ratio, without any correlation with the mask
+                if by_density { if dark { p[j] |= 0x80 >> b } else { p[j] &= !(0x80 >> b) } continue; }
+                let idx = where_.get(head + 8 * j + b).copied().unwrap_or(0);
+                let flips = mask_bit(m, idx / n, idx % n);          // the module is data XOR flips
+                let bit = dark != flips;
+                if bit { p[j] |= 0x80 >> b } else { p[j] &= !(0x80 >> b) }
+            }
+        } }
+        p
+    };
+    let mut found: Vec<Vec<u8>> = Vec::new();
+    let mut tries = 0usize;
+    let mut round = 0usize;
+    while tries < budget && found.len() < want {
+        round += 1;
+        let by_density = round % 3 != 0;
+        let m = if by_density { 2 + r.gen_range(0..2usize) } else { r.gen_range(0..8usize) };
+        let dark = (round / 3) % 2 == 0;
+        let target = if dark { total * 3 / 5 } else { total * 2 / 5 };
+        let (Some((d0, _)), Some((d1, _))) = (eval(&steer(r, m, 0.0, dark, by_density)), eval(&steer(r, m, 1.0, dark, by_density))) else { tries += 2; continue };
+        tries += 2;
+        if debug { eprintln!("v={v} m={m} dark={dark} dens={by_density} d0={} d1={} target={target}", d0[m], d1[m]); }
+        if (d1[m] - target) % 2 != 0 { continue; }                  // every RS block has even weight: the parity of a candidate's dark count is fixed
+        if (d1[m] - d0[m]) == 0 || (target - d0[m]) * (d1[m] - d0[m]) < 0 || (target - d0[m]).abs() > (d1[m] - d0[m]).abs() { continue; }
+        let f = (target - d0[m]) as f64 / (d1[m] - d0[m]) as f64;
+        let mut p = steer(r, m, f, dark, by_density);
+        let Some((mut d, mut sc)) = eval(&p) else { continue };
+        tries += 1;
+        let gap = |sc: &Vec<i64>| (sc[m] - (0..8).filter(|&j| j != m).map(|j| sc[j]).min().unwrap_or(0)).abs();
+        if gap(&sc) > abandon { if debug { eprintln!("v={v} m={m} dark={dark} dens={by_density} abandoned, gap {}", gap(&sc)); } continue; }     // candidate m is not in contention: another start is cheaper than a long climb
+        let mut moves = 0;
+        let (mut exacts, mut mingap) = (0usize, i64::MAX);
+        while moves < 900 && tries < budget {
+            if hit(&d, &sc, target) { break; }
+            let mut q = p.clone();
+            let at = r.gen_range(0..cap * 8);
+            // far from the step: set the bit the way that moves candidate m towards it; near the step: any flip (the error-correction bits re-randomise)
+            let idx = where_.get(head + at).copied().unwrap_or(0);
+            let makes_dark = if by_density { true } else { !mask_bit(m, idx / n, idx % n) };            // data bit value that (more often than not) makes this module dark under mask m
+            let need_more = d[m] < target;
+            if (d[m] - target).abs() > 6 { let bit = makes_dark == need_more; if bit { q[at / 8] |= 0x80 >> (at % 8) } else { q[at / 8] &= !(0x80 >> (at % 8)) } }
+            else { q[at / 8] ^= 0x80 >> (at % 8); }
+            if q == p { continue; }
+            let Some((d2, sc2)) = eval(&q) else { break };
+            tries += 1; moves += 1;
+            if d2[m] == target { exacts += 1; mingap = mingap.min(gap(&sc2)); }
+            let (far, far2) = ((d[m] - target).abs(), (d2[m] - target).abs());
+            // outside the band: get closer; inside it: stay inside and bring candidate m's score towards the best other one
+            if (far > 6 && far2 < far) || (far <= 6 && far2 <= 6 && gap(&sc2) <= gap(&sc).max(10)) || hit(&d2, &sc2, target) { p = q; d = d2; sc = sc2; }
+        }
+        if debug { eprintln!("v={v} m={m} dark={dark} dens={by_density} f={f:.2} tries={tries} exacts={exacts} mingap={mingap} dist={} gap={} hit={}", d[m] - target, gap(&sc), hit(&d, &sc, target)); }
+        if hit(&d, &sc, target) { found.push(p); }
+    }
+    found
 }
 
 /// Bit container as its own little machine: random (value, width) pushes against a bit-sequence model
